@@ -57,6 +57,7 @@ type Plan struct {
 	Ops        []Op   `json:"ops"`
 }
 
+//go:norace
 func (p *Plan) Clone() *Plan {
 	c := *p
 	c.Init = append([]int(nil), p.Init...)
@@ -68,6 +69,7 @@ func (p *Plan) Clone() *Plan {
 	return &c
 }
 
+//go:norace
 func randList(r *rand.Rand, allowEmpty bool) []int {
 	n := 1 + r.IntN(5)
 	if allowEmpty && r.IntN(12) == 0 {
@@ -79,6 +81,8 @@ func randList(r *rand.Rand, allowEmpty bool) []int {
 
 // Generate draws a plan. Profile "me0": no switching delay (C13's exact
 // clause); "med": switching delay and/or recovery timeout (C14); "me": both.
+//
+//go:norace
 func Generate(r *rand.Rand, profile string, concurrent bool) *Plan {
 	p := &Plan{Profile: profile, Concurrent: concurrent}
 	p.Init = randList(r, false)
@@ -154,6 +158,7 @@ type member struct {
 	cur string
 }
 
+//go:norace
 func (m member) key(list []string) string {
 	var b strings.Builder
 	b.WriteString(m.cur)
@@ -164,6 +169,7 @@ func (m member) key(list []string) string {
 	return b.String()
 }
 
+//go:norace
 func (m member) clone() member {
 	c := member{st: make(map[string]epState, len(m.st)), cur: m.cur}
 	for k, v := range m.st {
@@ -178,6 +184,7 @@ type model struct {
 	r, d    time.Duration
 }
 
+//go:norace
 func idx(list []string, e string) int {
 	for i, x := range list {
 		if x == e {
@@ -188,6 +195,8 @@ func idx(list []string, e string) int {
 }
 
 // rule computes Current() from the statement (no switching delay).
+//
+//go:norace
 func rule(list []string, m member) string {
 	ci := idx(list, m.cur)
 	top := -1
@@ -209,6 +218,7 @@ func rule(list []string, m member) string {
 	return m.cur
 }
 
+//go:norace
 func (mo *model) dedupe(ms []member) []member {
 	seen := map[string]bool{}
 	var out []member
@@ -224,6 +234,8 @@ func (mo *model) dedupe(ms []member) []member {
 
 // closure: every state reachable by processing any subset of due expiries, in
 // any order, recomputing current after each (when there is no switching delay).
+//
+//go:norace
 func (mo *model) closure(ms []member, now time.Duration) []member {
 	out := append([]member(nil), ms...)
 	seen := map[string]bool{}
@@ -250,6 +262,7 @@ func (mo *model) closure(ms []member, now time.Duration) []member {
 	return out
 }
 
+//go:norace
 func (mo *model) newEndpointVariants(ms []member, e string, now time.Duration) []member {
 	var out []member
 	for _, m := range ms {
@@ -268,6 +281,7 @@ func (mo *model) newEndpointVariants(ms []member, e string, now time.Duration) [
 	return out
 }
 
+//go:norace
 func (mo *model) applyAvail(ms []member, e string, up bool, now time.Duration) []member {
 	var out []member
 	for _, m := range ms {
@@ -293,6 +307,7 @@ func (mo *model) applyAvail(ms []member, e string, up bool, now time.Duration) [
 	return out
 }
 
+//go:norace
 func (mo *model) applySetList(ms []member, list []string, now time.Duration) []member {
 	old := mo.list
 	mo.list = list
@@ -335,6 +350,7 @@ type sim struct {
 	hist  []string
 }
 
+//go:norace
 func names(is []int) []string {
 	out := make([]string, len(is))
 	for i, x := range is {
@@ -343,6 +359,7 @@ func names(is []int) []string {
 	return out
 }
 
+//go:norace
 func (s *sim) vio(prop, rule, facts, msg string) {
 	sig := prop + "|" + rule
 	if facts != "" {
@@ -355,12 +372,15 @@ func (s *sim) vio(prop, rule, facts, msg string) {
 
 // call runs fn as a task to quiescence; panics are C05-class but reported under
 // the property the profile targets (no method of MultiEndpoint may panic).
+//
+//go:norace
 func (s *sim) call(name string, fn func()) {
 	s.k.Spawn(name, 0, nil, fn)
 	s.k.Quiesce()
 	s.kernelFailure()
 }
 
+//go:norace
 func (s *sim) kernelFailure() {
 	f := s.k.Fail
 	if f == nil {
@@ -379,12 +399,14 @@ func (s *sim) kernelFailure() {
 	}
 }
 
+//go:norace
 func (s *sim) current() string {
 	var x string
 	s.call("Current", func() { x = s.me.Current() })
 	return x
 }
 
+//go:norace
 func (s *sim) drained() bool {
 	for _, t := range s.held {
 		if t.State() != kern.Done {
@@ -397,6 +419,7 @@ func (s *sim) drained() bool {
 	return true
 }
 
+//go:norace
 func Run(t *testing.T, plan *Plan, src *simkit.Source, logOn bool) *simkit.Result {
 	res := &simkit.Result{}
 	h := simkit.Bubble(t, func() {
@@ -410,6 +433,7 @@ func Run(t *testing.T, plan *Plan, src *simkit.Source, logOn bool) *simkit.Resul
 	return res
 }
 
+//go:norace
 func (s *sim) run(src *simkit.Source, logOn bool) {
 	k := kern.New(src)
 	k.LogOn = logOn
@@ -470,6 +494,7 @@ func (s *sim) run(src *simkit.Source, logOn bool) {
 	s.finish()
 }
 
+//go:norace
 func (s *sim) exec(o Op) {
 	now := s.k.Elapsed()
 	mo := s.mo
@@ -565,6 +590,7 @@ func (s *sim) exec(o Op) {
 	}
 }
 
+//go:norace
 func (s *sim) runTimer(t *kern.Task) {
 	s.k.Release(t)
 	s.k.Quiesce()
@@ -578,6 +604,7 @@ func (s *sim) runTimer(t *kern.Task) {
 	s.observe("timer:"+t.Name, false)
 }
 
+//go:norace
 func (s *sim) releaseAll() {
 	for !s.stop {
 		var pend []*kern.Task
@@ -597,6 +624,8 @@ func (s *sim) releaseAll() {
 }
 
 // observe reads Current() and judges the step.
+//
+//go:norace
 func (s *sim) observe(what string, api bool) {
 	if s.stop {
 		return
@@ -732,6 +761,8 @@ func (s *sim) observe(what string, api bool) {
 
 // converge: inputs stop, every pending timer fires and runs; then Current() is
 // the highest-priority available endpoint if any endpoint is available.
+//
+//go:norace
 func (s *sim) converge() {
 	for i := 0; i < 50 && !s.stop; i++ {
 		s.releaseAll()
@@ -781,6 +812,8 @@ func (s *sim) converge() {
 // runConcurrent: API tasks and timer tasks interleaved at lock granularity;
 // only schedule-independent oracles (membership, no panic, no deadlock), and
 // the race detector in the -race build.
+//
+//go:norace
 func (s *sim) runConcurrent(src *simkit.Source) {
 	p := s.plan
 	lists := [][]string{append([]string{}, s.mo.list...)}
@@ -831,6 +864,7 @@ func (s *sim) runConcurrent(src *simkit.Source) {
 	s.res.Count("op:concurrent_run", 1)
 }
 
+//go:norace
 func (s *sim) finish() {
 	k := s.k
 	k.Shutdown()
@@ -842,8 +876,10 @@ func (s *sim) finish() {
 	s.res.Count("ops", len(s.plan.Ops))
 }
 
+//go:norace
 func kindName(k stKind) string { return [...]string{"unavailable", "available", "recovering"}[k] }
 
+//go:norace
 func describe(mo *model) string {
 	var parts []string
 	for i, m := range mo.members {
@@ -865,6 +901,7 @@ func describe(mo *model) string {
 	return "possible states " + strings.Join(parts, " ")
 }
 
+//go:norace
 func keysOf(m map[string]bool) []string {
 	var o []string
 	for k := range m {
@@ -874,6 +911,7 @@ func keysOf(m map[string]bool) []string {
 	return o
 }
 
+//go:norace
 func tail(s []string, n int) []string {
 	if len(s) > n {
 		return s[len(s)-n:]
@@ -881,6 +919,7 @@ func tail(s []string, n int) []string {
 	return s
 }
 
+//go:norace
 func hashStr(s string) uint64 {
 	h := uint64(1469598103934665603)
 	for i := 0; i < len(s); i++ {
@@ -894,30 +933,45 @@ func hashStr(s string) uint64 {
 
 type Engine struct{}
 
+//go:norace
 func (Engine) Name() string { return "mesim" }
+
+//go:norace
 func (Engine) Generate(r *rand.Rand, profile string, concurrent bool, avoid map[string]bool) simkit.Plan {
 	return Generate(r, profile, concurrent)
 }
+
+//go:norace
 func (Engine) Decode(b []byte) (simkit.Plan, error) {
 	p := &Plan{}
 	return p, json.Unmarshal(b, p)
 }
+
+//go:norace
 func (Engine) Strategy(p simkit.Plan, r *rand.Rand) simkit.Strategy {
 	pl := p.(*Plan)
 	if !pl.Concurrent || pl.Strategy == 0 {
-		return &simkit.RandomWalk{R: r, Stick: 0.6, Mix: 0.6}
+		return &simkit.RandomWalk{R: simkit.NewSM64(r.Uint64()), Stick: 0.6, Mix: 0.6}
 	}
-	return simkit.NewPCT(r, pl.Strategy, 40+len(pl.Ops)*8, 0.6)
+	return simkit.NewPCT(simkit.NewSM64(r.Uint64()), pl.Strategy, 40+len(pl.Ops)*8, 0.6)
 }
+
+//go:norace
 func (Engine) Run(t *testing.T, p simkit.Plan, src *simkit.Source, log bool) *simkit.Result {
 	return Run(t, p.(*Plan), src, log)
 }
+
+//go:norace
 func (Engine) NOps(p simkit.Plan) int { return len(p.(*Plan).Ops) }
+
+//go:norace
 func (Engine) Remove(p simkit.Plan, i, j int) simkit.Plan {
 	c := p.(*Plan).Clone()
 	c.Ops = append(c.Ops[:i], c.Ops[j:]...)
 	return c
 }
+
+//go:norace
 func (Engine) Simplify(p simkit.Plan) []simkit.Plan {
 	pl := p.(*Plan)
 	var out []simkit.Plan
@@ -948,6 +1002,8 @@ func (Engine) Simplify(p simkit.Plan) []simkit.Plan {
 	}
 	return out
 }
+
+//go:norace
 func (Engine) Relevant(res *simkit.Result, prop string) bool {
 	return res.Counters["op:avail"]+res.Counters["op:setlist"]+res.Counters["op:concurrent_run"] > 0
 }
